@@ -36,9 +36,10 @@ structure Frame (w w' : World) : Prop where
   hrc : ∀ k, w'.nextId ≤ k → alGet k w'.rendererCache = none
   hcc : ∀ k, w'.nextId ≤ k → alGet k w'.ctxCache = none
   hca : ∀ k, w'.nextId ≤ k → alGet k w'.childAttrs = none
+  good : (∀ k cc, alGet k w.ctxCache = some cc → GoodC cc) → ∀ k cc, alGet k w'.ctxCache = some cc → GoodC cc
 
 theorem Frame.refl {w : World} (hw : WInv w) : Frame w w :=
-  ⟨Nat.le_refl _, fun _ _ => rfl, fun _ _ => rfl, fun _ _ => rfl, ⟨rfl, rfl, rfl, rfl⟩, hw.rc, hw.cc, hw.ca⟩
+  ⟨Nat.le_refl _, fun _ _ => rfl, fun _ _ => rfl, fun _ _ => rfl, ⟨rfl, rfl, rfl, rfl⟩, hw.rc, hw.cc, hw.ca, fun h => h⟩
 
 theorem Frame.trans {a b c : World} (h1 : Frame a b) (h2 : Frame b c) : Frame a c where
   next := Nat.le_trans h1.next h2.next
@@ -52,16 +53,17 @@ theorem Frame.trans {a b c : World} (h1 : Frame a b) (h2 : Frame b c) : Frame a 
   hrc := h2.hrc
   hcc := h2.hcc
   hca := h2.hca
+  good := fun h => h2.good (h1.good h)
 
 theorem Frame.winv {w w' : World} (hw : WInv w) (h : Frame w w') : WInv w' :=
   ⟨by rw [h.prov.1]; exact hw.prov, h.hrc, h.hcc, h.hca,
-   fun k hk => by rw [h.prov.2.2.1]; exact hw.refs k (Nat.le_trans h.next hk)⟩
+   fun k hk => by rw [h.prov.2.2.1]; exact hw.refs k (Nat.le_trans h.next hk), h.good hw.good⟩
 
 theorem Frame.of_bal {env : Env} {w w' : World} {ids : List Nat} (hw : WInv w) (hb : Bal env w w' ids) : Frame w w' := by
   have hlow : ∀ k, k < w.nextId → k ∉ ids := fun k hk hm => by have := (hb.range k hm).1; omega
   have hw' := hw.step hb
   exact ⟨hb.next, fun k hk => hb.rc k (hlow k hk), fun k hk => hb.cc k (hlow k hk), fun k _ => hb.ca k, hb.prov,
-    hw'.rc, hw'.cc, hw'.ca⟩
+    hw'.rc, hw'.cc, hw'.ca, fun _ => hw'.good⟩
 
 theorem Frame.left {a b w' : World} (h : core a = core b) (hf : Frame a w') : Frame b w' := by
   obtain ⟨h1, h2, h3, h4, h5, h6, h7, h8, _⟩ := core_fields h
@@ -74,6 +76,7 @@ theorem Frame.left {a b w' : World} (h : core a = core b) (hf : Frame a w') : Fr
   · exact hf.hrc
   · exact hf.hcc
   · exact hf.hca
+  · rw [← h2]; exact hf.good
 
 theorem Frame.right {w a b : World} (h : core a = core b) (hf : Frame w a) : Frame w b := by
   obtain ⟨h1, h2, h3, h4, h5, h6, h7, h8, _⟩ := core_fields h
@@ -86,6 +89,7 @@ theorem Frame.right {w a b : World} (h : core a = core b) (hf : Frame w a) : Fra
   · rw [← h1, ← h3]; exact hf.hrc
   · rw [← h1, ← h2]; exact hf.hcc
   · rw [← h1, ← h4]; exact hf.hca
+  · rw [← h2]; exact hf.good
 
 /-- a callback that raised touched nothing but the event log and the instance counter -/
 theorem tick_err (env : Env) (ev : Ev) (w w' : World) (e : Err) (h : (tick env ev).run.run w = (.error e, w')) :
@@ -127,7 +131,7 @@ theorem linv_frame {env : Env} {w0 w : World} {Q : List QItem} (h0 : WInv w0) (h
   have hlow1 : ∀ k, k < w0.nextId → k ∉ chIds Q := fun k hk hm => hlow k hk (List.mem_append_left _ hm)
   have hw := hl.winv h0
   exact ⟨hl.next, fun k hk => hl.rc k (hlow1 k hk), fun k hk => hl.cc k (hlow k hk), fun k hk => hl.ca k (hlow1 k hk), hl.prov,
-    hw.rc, hw.cc, hw.ca⟩
+    hw.rc, hw.cc, hw.ca, fun _ => hw.good⟩
 
 structure EStmt (env : Env) (n : Nat) : Prop where
   nodes : ∀ nodes ctx w e w', tnodes nodes = true → ctxFree ctx = true → WInv w →
@@ -138,10 +142,12 @@ structure EStmt (env : Env) (n : Nat) : Prop where
     (renderNode env n nd ctx).run.run w = (.error e, w') → Frame w w'
   tag : ∀ name kwargs only dyn ctx w e w', isDynName name = false → ctxFree ctx = true → WInv w →
     (renderCompTag env n name kwargs only dyn [] ctx).run.run w = (.error e, w') → Frame w w'
-  impl : ∀ name kw outer ctx w e w', isDynName name = false → ctxFree ctx = true → slotFreeKvs kw = true → WInv w →
-    (renderImpl env n name kw [] outer ctx).run.run w = (.error e, w') → Frame w w'
+  impl : ∀ name kw o ctx w e w', isDynName name = false → ctxFree ctx = true → ctxFree o = true → slotFreeKvs kw = true → WInv w →
+    (renderImpl env n name kw [] (some o) ctx).run.run w = (.error e, w') → Frame w w'
   run : ∀ r k attrs w e w', GoodR env r k → WInv w →
     (runRenderer env n r attrs).run.run w = (.error e, w') → Frame w w'
+  slot : ∀ nameE isRequired data body ctx w e w', tnodes body = true → ctxFree ctx = true → WInv w →
+    (renderSlot env n nameE false isRequired data body ctx).run.run w = (.error e, w') → Frame w w'
   loop : ∀ Q parts out w0 w e w', WInv w0 → LInv env w0 Q w → PartsOk parts → holeIds out = [] →
     (postRender env n Q parts out).run.run w = (.error e, w') → Frame w0 w'
 
@@ -154,8 +160,9 @@ theorem estmt_zero (env : Env) : EStmt env 0 := by
   · intro x items i body ctx w e w' _ _ _ hw h; simp only [renderFor, run_throw] at h; obtain ⟨_, rfl⟩ := err_inj h; exact Frame.refl hw
   · intro nd ctx w e w' _ _ hw h; simp only [renderNode, run_throw] at h; obtain ⟨_, rfl⟩ := err_inj h; exact Frame.refl hw
   · intro name kwargs only dyn ctx w e w' _ _ hw h; simp only [renderCompTag, run_throw] at h; obtain ⟨_, rfl⟩ := err_inj h; exact Frame.refl hw
-  · intro name kw outer ctx w e w' _ _ _ hw h; simp only [renderImpl, run_throw] at h; obtain ⟨_, rfl⟩ := err_inj h; exact Frame.refl hw
+  · intro name kw o ctx w e w' _ _ _ _ hw h; simp only [renderImpl, run_throw] at h; obtain ⟨_, rfl⟩ := err_inj h; exact Frame.refl hw
   · intro r k attrs w e w' _ hw h; simp only [runRenderer, run_throw] at h; obtain ⟨_, rfl⟩ := err_inj h; exact Frame.refl hw
+  · intro nameE isRequired data body ctx w e w' _ _ hw h; simp only [renderSlot, run_throw] at h; obtain ⟨_, rfl⟩ := err_inj h; exact Frame.refl hw
   · intro Q parts out w0 w e w' h0 hl _ _ h; simp only [postRender, run_throw] at h; obtain ⟨_, rfl⟩ := err_inj h; exact linv_frame h0 hl
 
 theorem estmt_nodes (env : Env) (hlib : GoodLib env) (n : Nat) (ih : EStmt env n) :
@@ -238,13 +245,29 @@ theorem estmt_node (env : Env) (hlib : GoodLib env) (n : Nat) (ih : EStmt env n)
       obtain ⟨hb, hd⟩ := ht
       subst hb
       exact Frame.left hcore (ih.tag name kwargs only dyn ctx _ e w' hd hc hw1 h)
-    | slot a b c d e => simp [tnode] at ht
+    | slot nameE isDefault isRequired data body =>
+      simp only [tnode, Bool.and_eq_true, Bool.not_eq_true'] at ht
+      obtain ⟨hdf, hb⟩ := ht
+      subst hdf
+      exact Frame.left hcore (ih.slot nameE isRequired data body ctx _ e w' hb hc hw1 h)
     | fill a b c d => simp [tnode] at ht
     | provide a b c => simp [tnode] at ht
     | block a b => simp [tnode] at ht
     | blockSuper => simp [tnode] at ht
     | «extends» a => simp [tnode] at ht
     | includen a => simp [tnode] at ht
+
+theorem estmt_slot (env : Env) (n : Nat) (ih : EStmt env n) :
+    ∀ nameE isRequired data body ctx w e w', tnodes body = true → ctxFree ctx = true → WInv w →
+    (renderSlot env (n + 1) nameE false isRequired data body ctx).run.run w = (.error e, w') → Frame w w' := by
+  intro nameE isRequired data body ctx w e w' hb hc hw h
+  rcases slot_unfolds env n nameE isRequired data body ctx w hc hw with ⟨e', he⟩ | he | ⟨c3, hc3, _, he⟩
+  · rw [he] at h
+    obtain ⟨_, rfl⟩ := err_inj h
+    exact Frame.refl hw
+  · rw [he] at h; cases h
+  · rw [he] at h
+    exact ih.nodes body c3 w e w' hb hc3 hw h
 
 theorem estmt_tag (env : Env) (n : Nat) (ih : EStmt env n) :
     ∀ name kwargs only dyn ctx w e w', isDynName name = false → ctxFree ctx = true → WInv w →
@@ -268,14 +291,14 @@ theorem estmt_tag (env : Env) (n : Nat) (ih : EStmt env n) :
       | succ m =>
         unfold resolveFills at h
         simp only [List.isEmpty_nil, ↓reduceIte, run_pure] at h
-        refine ih.impl name (evalKwargs ctx kwargs) (some ctx) _ w e w' hd ?_ (evalKwargs_free ctx hc kwargs) hw h
+        refine ih.impl name (evalKwargs ctx kwargs) ctx _ w e w' hd ?_ hc (evalKwargs_free ctx hc kwargs) hw h
         split
         · exact ctxFree_isolatedCopy ctx hc
         · exact hc
 
 
 /-- the world in which `_render_impl` raised before it queued its renderer: at most the new `ComponentContext` entry -/
-theorem frame_reg (w w' : World) (hw : WInv w) (cc : Option CompCtx)
+theorem frame_reg (w w' : World) (hw : WInv w) (cc : Option CompCtx) (hcc : ∀ c, cc = some c → GoodC c)
     (e1 : w'.nextId = w.nextId + 1)
     (e2 : w'.ctxCache = match cc with | some c => alSet w.nextId c w.ctxCache | none => w.ctxCache)
     (e3 : w'.rendererCache = w.rendererCache) (e4 : w'.childAttrs = w.childAttrs)
@@ -298,26 +321,37 @@ theorem frame_reg (w w' : World) (hw : WInv w) (cc : Option CompCtx)
     | none => exact hw.cc k (by omega)
     | some c => simp only; rw [alGet_alSet_ne _ _ _ _ (by omega)]; exact hw.cc k (by omega)
   · intro k hk; rw [e4]; exact hw.ca k (by omega)
+  · intro _ k c hk
+    rw [e2] at hk
+    cases cc with
+    | none => exact hw.good k c hk
+    | some c0 =>
+      simp only at hk
+      by_cases e : w.nextId = k
+      · rw [e, alGet_alSet_same] at hk
+        injection hk with hk
+        rw [← hk]; exact hcc c0 rfl
+      · rw [alGet_alSet_ne _ _ _ _ e] at hk; exact hw.good k c hk
 
 theorem Frame.of_core_eq {w a b : World} (h : core b = core a) (hf : Frame w a) : Frame w b := Frame.right h.symm hf
 
 theorem loop_root_err (env : Env) (n : Nat) (ih : EStmt env n) (w w1 w' : World) (e : Err) (hw : WInv w)
     (h : (postRender env n [{ before := [], child := some w.nextId, parent := none, grand := none }] [] []).run.run w1 = (.error e, w'))
-    (cc : CompCtx) (r : Renderer) (hg : GoodR env r w.nextId)
+    (cc : CompCtx) (r : Renderer) (hg : GoodR env r w.nextId) (hcc : GoodC cc)
     (e1 : w1.nextId = w.nextId + 1) (e2 : w1.ctxCache = alSet w.nextId cc w.ctxCache)
     (e3 : w1.rendererCache = alSet w.nextId r w.rendererCache) (e4 : w1.childAttrs = w.childAttrs)
     (e5 : w1.provideCache = w.provideCache) (e6 : w1.provideRefs = w.provideRefs) (e7 : w1.allRefIds = w.allRefIds)
     (e8 : w1.cap = w.cap) (e9 : w1.events = w.events ++ [.gcd w.nextId]) :
     Frame w w' := by
-  have hb := reg_Bal env w w1 cc r hw hg e1 e2 e3 e4 e5 e6 e7 e8 e9
+  have hb := reg_Bal env w w1 cc r hw hg hcc e1 e2 e3 e4 e5 e6 e7 e8 e9
   have hl : LInv env w [{ before := [], child := some w.nextId, parent := none, grand := none }] w1 :=
     LInv.of_bal (by simpa [chIds] using hb) (by simp [opIds]) (by intro it hit; simp only [List.mem_singleton] at hit; rw [hit]; rfl)
   exact ih.loop _ [] [] w w1 e w' hw hl partsOk_nil rfl h
 
 theorem estmt_impl (env : Env) (hlib : GoodLib env) (n : Nat) (ih : EStmt env n) :
-    ∀ name kw outer ctx w e w', isDynName name = false → ctxFree ctx = true → slotFreeKvs kw = true → WInv w →
-    (renderImpl env (n + 1) name kw [] outer ctx).run.run w = (.error e, w') → Frame w w' := by
-  intro name kw outer ctx w e w' hd hc hkw hw h
+    ∀ name kw o ctx w e w', isDynName name = false → ctxFree ctx = true → ctxFree o = true → slotFreeKvs kw = true → WInv w →
+    (renderImpl env (n + 1) name kw [] (some o) ctx).run.run w = (.error e, w') → Frame w w' := by
+  intro name kw o ctx w e w' hd hc ho hkw hw h
   rw [renderImpl_succ] at h
   generalize parentOf ctx = par at h
   unfold implBody at h
@@ -332,18 +366,18 @@ theorem estmt_impl (env : Env) (hlib : GoodLib env) (n : Nat) (ih : EStmt env n)
          · rename_i a wt ht
            obtain ⟨g, rfl⟩ := tick_ok _ _ _ _ _ ht
            obtain ⟨_, rfl⟩ := err_inj h
-           exact frame_reg w _ hw (some _) rfl rfl rfl rfl hw.prov.symm rfl rfl rfl
+           exact frame_reg w _ hw (some _) (fun c hc' => by injection hc' with hc'; rw [← hc']; exact good_cc name w.nextId _ o ho) rfl rfl rfl rfl hw.prov.symm rfl rfl rfl
          · rename_i e2 wt ht
            obtain ⟨_, rfl⟩ := err_inj h
            have hc2 := tick_err _ _ _ _ _ ht
-           exact Frame.of_core_eq hc2 (frame_reg w _ hw (some _) rfl rfl rfl rfl hw.prov.symm rfl rfl rfl))
+           exact Frame.of_core_eq hc2 (frame_reg w _ hw (some _) (fun c hc' => by injection hc' with hc'; rw [← hc']; exact good_cc name w.nextId _ o ho) rfl rfl rfl rfl hw.prov.symm rfl rfl rfl))
     | some p =>
       simp only [run_bind, run_genId, run_get] at h
       cases hpc : alGet p w.ctxCache with
       | none =>
         simp only [hpc, run_throw] at h
         obtain ⟨_, rfl⟩ := err_inj h
-        exact frame_reg w _ hw none rfl rfl rfl rfl rfl rfl rfl rfl
+        exact frame_reg w _ hw none (fun _ hc' => by cases hc') rfl rfl rfl rfl rfl rfl rfl rfl
       | some pc =>
         simp only [hpc, hd, hf, Bool.false_eq_true, ↓reduceIte, Bool.not_false, run_pure, Option.isNone_some,
           Bool.false_and, Option.isSome_some, run_modify, registerRefW, hw.prov, List.isEmpty_nil, run_bind, run_throw] at h
@@ -351,11 +385,11 @@ theorem estmt_impl (env : Env) (hlib : GoodLib env) (n : Nat) (ih : EStmt env n)
         · rename_i a wt ht
           obtain ⟨g, rfl⟩ := tick_ok _ _ _ _ _ ht
           obtain ⟨_, rfl⟩ := err_inj h
-          exact frame_reg w _ hw (some _) rfl rfl rfl rfl hw.prov.symm rfl rfl rfl
+          exact frame_reg w _ hw (some _) (fun c hc' => by injection hc' with hc'; rw [← hc']; exact good_cc name w.nextId _ o ho) rfl rfl rfl rfl hw.prov.symm rfl rfl rfl
         · rename_i e2 wt ht
           obtain ⟨_, rfl⟩ := err_inj h
           have hc2 := tick_err _ _ _ _ _ ht
-          exact Frame.of_core_eq hc2 (frame_reg w _ hw (some _) rfl rfl rfl rfl hw.prov.symm rfl rfl rfl)
+          exact Frame.of_core_eq hc2 (frame_reg w _ hw (some _) (fun c hc' => by injection hc' with hc'; rw [← hc']; exact good_cc name w.nextId _ o ho) rfl rfl rfl rfl hw.prov.symm rfl rfl rfl)
   | some d =>
     have hgood := hlib d (findDef_mem env name d hf)
     have hgd := fun w' => getContextData_pure env w.nextId ctx kw d.data [] w' (pure_of_good d hgood.2)
@@ -370,11 +404,11 @@ theorem estmt_impl (env : Env) (hlib : GoodLib env) (n : Nat) (ih : EStmt env n)
           obtain ⟨g, rfl⟩ := tick_ok _ _ _ _ _ ht
           simp only [hgd, run_bind, run_pure, run_modify] at h
           exact loop_root_err env n ih w _ w' e hw h _ _ (good_renderer env name kw ctx w.nextId d _ hc hkw hf hgood.2)
-            rfl rfl rfl rfl hw.prov.symm rfl rfl rfl rfl
+            (good_cc name w.nextId _ o ho) rfl rfl rfl rfl hw.prov.symm rfl rfl rfl rfl
         · rename_i e2 wt ht
           obtain ⟨_, rfl⟩ := err_inj h
           have hc2 := tick_err _ _ _ _ _ ht
-          exact Frame.of_core_eq hc2 (frame_reg w _ hw (some _) rfl rfl rfl rfl hw.prov.symm rfl rfl rfl)
+          exact Frame.of_core_eq hc2 (frame_reg w _ hw (some _) (fun c hc' => by injection hc' with hc'; rw [← hc']; exact good_cc name w.nextId _ o ho) rfl rfl rfl rfl hw.prov.symm rfl rfl rfl)
       | false =>
         simp only [run_bind, run_genId, hd, hf, hrc, Bool.false_eq_true, ↓reduceIte, Bool.not_false, run_pure, Option.isNone_none,
           Bool.true_and, Bool.and_self, Bool.and_false, Option.isSome_none, run_modify, registerRefW, hw.prov, List.isEmpty_nil] at h
@@ -383,18 +417,18 @@ theorem estmt_impl (env : Env) (hlib : GoodLib env) (n : Nat) (ih : EStmt env n)
           obtain ⟨g, rfl⟩ := tick_ok _ _ _ _ _ ht
           simp only [hgd, run_bind, run_pure, run_modify] at h
           exact loop_root_err env n ih w _ w' e hw h _ _ (good_renderer env name kw ctx w.nextId d _ hc hkw hf hgood.2)
-            rfl rfl rfl rfl hw.prov.symm rfl rfl rfl rfl
+            (good_cc name w.nextId _ o ho) rfl rfl rfl rfl hw.prov.symm rfl rfl rfl rfl
         · rename_i e2 wt ht
           obtain ⟨_, rfl⟩ := err_inj h
           have hc2 := tick_err _ _ _ _ _ ht
-          exact Frame.of_core_eq hc2 (frame_reg w _ hw (some _) rfl rfl rfl rfl hw.prov.symm rfl rfl rfl)
+          exact Frame.of_core_eq hc2 (frame_reg w _ hw (some _) (fun c hc' => by injection hc' with hc'; rw [← hc']; exact good_cc name w.nextId _ o ho) rfl rfl rfl rfl hw.prov.symm rfl rfl rfl)
     | some p =>
       simp only [run_bind, run_genId, run_get] at h
       cases hpc : alGet p w.ctxCache with
       | none =>
         simp only [hpc, run_throw] at h
         obtain ⟨_, rfl⟩ := err_inj h
-        exact frame_reg w _ hw none rfl rfl rfl rfl rfl rfl rfl rfl
+        exact frame_reg w _ hw none (fun _ hc' => by cases hc') rfl rfl rfl rfl rfl rfl rfl rfl
       | some pc =>
         simp only [hpc, hd, hf, Bool.false_eq_true, ↓reduceIte, Bool.not_false, run_pure, Option.isNone_some,
           Bool.false_and, Option.isSome_some, run_modify, registerRefW, hw.prov, List.isEmpty_nil, run_bind] at h
@@ -406,11 +440,11 @@ theorem estmt_impl (env : Env) (hlib : GoodLib env) (n : Nat) (ih : EStmt env n)
         · rename_i e2 wt ht
           obtain ⟨_, rfl⟩ := err_inj h
           have hc2 := tick_err _ _ _ _ _ ht
-          exact Frame.of_core_eq hc2 (frame_reg w _ hw (some _) rfl rfl rfl rfl hw.prov.symm rfl rfl rfl)
+          exact Frame.of_core_eq hc2 (frame_reg w _ hw (some _) (fun c hc' => by injection hc' with hc'; rw [← hc']; exact good_cc name w.nextId _ o ho) rfl rfl rfl rfl hw.prov.symm rfl rfl rfl)
 
 
 theorem frame_events {w : World} (hw : WInv w) (evs : List Ev) (g : Nat) : Frame w { w with events := evs, gcds := g } :=
-  ⟨Nat.le_refl _, fun _ _ => rfl, fun _ _ => rfl, fun _ _ => rfl, ⟨rfl, rfl, rfl, rfl⟩, hw.rc, hw.cc, hw.ca⟩
+  ⟨Nat.le_refl _, fun _ _ => rfl, fun _ _ => rfl, fun _ _ => rfl, ⟨rfl, rfl, rfl, rfl⟩, hw.rc, hw.cc, hw.ca, fun h => h⟩
 
 theorem estmt_run (env : Env) (hlib : GoodLib env) (n : Nat) (ih : EStmt env n) :
     ∀ r k attrs w e w', GoodR env r k → WInv w →
@@ -521,14 +555,14 @@ theorem estmt_loop (env : Env) (hlib : GoodLib env) (n : Nat) (ih : EStmt env n)
             subst hw1
             have hwg := hl.winv h0
             have hw1 : WInv ({ w with rendererCache := alDel cid w.rendererCache, childAttrs := alDel cid w.childAttrs } : World) :=
-              ⟨hwg.prov, fun k hk => alGet_alDel_none k cid _ (hwg.rc k hk), hwg.cc, fun k hk => alGet_alDel_none k cid _ (hwg.ca k hk), hwg.refs⟩
+              ⟨hwg.prov, fun k hk => alGet_alDel_none k cid _ (hwg.rc k hk), hwg.cc, fun k hk => alGet_alDel_none k cid _ (hwg.ca k hk), hwg.refs, hwg.good⟩
             have hcid : w0.nextId ≤ cid := (hl.range cid (by simp [chIds, hc])).1
             have hfr1 : Frame w0 ({ w with rendererCache := alDel cid w.rendererCache, childAttrs := alDel cid w.childAttrs } : World) :=
               ⟨hfr.next,
                fun k hk => by rw [alGet_alDel_ne _ _ _ (by omega : cid ≠ k)]; exact hfr.rc k hk,
                hfr.cc,
                fun k hk => by rw [alGet_alDel_ne _ _ _ (by omega : cid ≠ k)]; exact hfr.ca k hk,
-               hfr.prov, hw1.rc, hw1.cc, hw1.ca⟩
+               hfr.prov, hw1.rc, hw1.cc, hw1.ca, hfr.good⟩
             rcases bind_err _ _ _ _ _ hq with hrun | ⟨cg, w2, hrun, hq⟩
             · exact hfr1.trans (ih.run r cid _ _ e w' hg hw1 hrun)
             · obtain ⟨content, ga⟩ := cg
@@ -551,6 +585,7 @@ theorem estmt_all (env : Env) (hlib : GoodLib env) : ∀ n, EStmt env n
       tag := estmt_tag env n ih
       impl := estmt_impl env hlib n ih
       run := estmt_run env hlib n ih
+      slot := estmt_slot env n ih
       loop := estmt_loop env hlib n ih }
 
 /-- **A render of the fragment that raises — wherever, for whatever reason — disturbs nothing that was there before.** -/
